@@ -39,11 +39,21 @@ def single_assignments(fn: ast.FunctionDef) -> dict[str, ast.AST]:
             targets, val = [n.target], None
         for t in targets:
             for sub in ast.walk(t):
-                if isinstance(sub, ast.Name):
+                if isinstance(sub, ast.Name) and isinstance(sub.ctx, (ast.Store, ast.Del)):
                     counts[sub.id] = counts.get(sub.id, 0) + (1 if (val is not None and sub is t) else 2)
                     if val is not None and sub is t:
                         values[sub.id] = val
-    return {k: v for k, v in values.items() if counts.get(k) == 1 and k not in params}
+    out = {k: v for k, v in values.items() if counts.get(k) == 1 and k not in params}
+    # `q, r = divmod(a, b)` binds q = a // b and r = a % b
+    for n in walk_no_nested(fn, include_root=False):
+        if isinstance(n, ast.Assign) and len(n.targets) == 1 and isinstance(n.targets[0], ast.Tuple) and len(n.targets[0].elts) == 2 \
+                and isinstance(n.value, ast.Call) and call_name(n.value) == "divmod" and len(n.value.args) == 2:
+            q, r = n.targets[0].elts
+            if isinstance(q, ast.Name) and isinstance(r, ast.Name) and counts.get(q.id) == 2 and counts.get(r.id) == 2:
+                a, b = n.value.args
+                out[q.id] = ast.BinOp(a, ast.FloorDiv(), b)
+                out[r.id] = ast.BinOp(a, ast.Mod(), b)
+    return out
 
 
 def last_assignments(fn: ast.FunctionDef) -> dict[str, ast.AST]:
@@ -385,3 +395,42 @@ def same_bytes(got: list[ByteVal], want: list[ByteVal], ignore_checked: bool = T
         if g.signed != w.signed:
             return False
     return True
+
+
+# --------------------------------------------------------------------------- canonical text of expressions, robust to local renames / temps
+def canon(fn: ast.FunctionDef, expr: ast.AST | None, keep: Iterable[str] = ()) -> str:
+    """unparse(expr) after substituting every single-assignment local except those in `keep`.
+    Two functions that differ only in the names of their temporaries give the same text."""
+    if expr is None:
+        return "<none>"
+    env = {k: v for k, v in last_assignments(fn).items() if k not in set(keep)}
+    return unparse(inline(expr, env))
+
+
+def alias_root(fn: ast.FunctionDef, name: str, depth: int = 6) -> str:
+    """follow `x = y` copies back to the first name (parameters included); stops at anything that is not a plain copy."""
+    cur = name
+    for _ in range(depth):
+        first = None
+        for n in walk_no_nested(fn, include_root=False):
+            if isinstance(n, ast.Assign) and len(n.targets) == 1 and isinstance(n.targets[0], ast.Name) and n.targets[0].id == cur:
+                first = n
+                break
+        if first is None or not isinstance(first.value, ast.Name):
+            return cur
+        cur = first.value.id
+    return cur
+
+
+def canon_test(test: ast.AST) -> tuple[str, bool]:
+    """(text, polarity): `X is not None` -> ('X is None', False); `not X` -> (X, False); `X != c` -> ('X == c', False)"""
+    if isinstance(test, ast.UnaryOp) and isinstance(test.op, ast.Not):
+        t, p = canon_test(test.operand)
+        return t, not p
+    if isinstance(test, ast.Compare) and len(test.ops) == 1:
+        flip = {ast.IsNot: ast.Is, ast.NotEq: ast.Eq, ast.NotIn: ast.In}
+        op = test.ops[0]
+        if type(op) in flip:
+            pos = ast.Compare(test.left, [flip[type(op)]()], test.comparators)
+            return unparse(pos), False
+    return unparse(test), True
